@@ -82,7 +82,11 @@ class StlPastifier(LtlPastifier, StlAstVisitor):
 
     def visitVariable(self, node, *args, **kwargs):
         horizon = args[0]
+        old = node
         node = Variable(node.var, node.field, node.io_type)
+        # the name of the variable keeps denoting the variable itself (get_value), not its delayed copy
+        d = self.ast.phi_name_to_node_dict
+        d.update({key: node for key in [k for k, v in d.items() if v == old]})
         if horizon > 0:
             node = TimedOnce(node, Interval(horizon, horizon))
         return node
@@ -178,7 +182,11 @@ class StlPastifier(LtlPastifier, StlAstVisitor):
 
     def visitVariable(self, node, *args, **kwargs):
         horizon = args[0]
+        old = node
         node = Variable(node.var, node.field, node.io_type)
+        # the name of the variable keeps denoting the variable itself (get_value), not its delayed copy
+        d = self.ast.phi_name_to_node_dict
+        d.update({key: node for key in [k for k, v in d.items() if v == old]})
         if horizon > 0:
             node = TimedOnce(node, Interval(horizon, horizon))
         return node
